@@ -13,6 +13,7 @@ import (
 	"runtime"
 	"runtime/debug"
 	"sort"
+	"strconv"
 	"strings"
 	"sync"
 	"sync/atomic"
@@ -77,6 +78,11 @@ func (c *Ctx) Thorough() bool { return c.Tier == "thorough" }
 // N picks the case count of the tier.
 func (c *Ctx) N(quick, thorough int) int {
 	if c.Thorough() {
+		// the driver stretches the thorough case lists of cheap checks (driver/run.py THOROUGH_SCALE);
+		// indices below the unscaled length address the same cases as before
+		if k, err := strconv.Atoi(os.Getenv("VERIF_THOROUGH_SCALE")); err == nil && k > 1 {
+			return thorough * k
+		}
 		return thorough
 	}
 	return quick
